@@ -22,3 +22,9 @@ pub mod io {
 }
 pub use io::{Error, ErrorKind};
 
+// ASSUMED: std::cmp::min on usize (the only instantiation the extracted code uses)
+pub mod cmp {
+    use vstd::prelude::*;
+    #[verifier::external_body]
+    pub fn min(a: usize, b: usize) -> (r: usize) ensures r == (if a <= b { a } else { b }) { unimplemented!() }
+}
